@@ -236,8 +236,23 @@ def _read_sites(chk, prog, M, mk, fx):
     nreads = 0
     per_fn = {}
     for fn, f in sorted(prog.lib_functions().items()):
+        # locals that hold a copy of the field (initialised from it, never assigned again): their uses are uses of the field
+        reassigned = {ref_name(strip(kids(x)[0])) for x in walk(prog.body(f))
+                      if x.get("kind") in ("BinaryOperator", "CompoundAssignOperator") and x.get("opcode", "").endswith("=") and
+                      x.get("opcode") not in ("==", "!=", "<=", ">=") and strip(kids(x)[0]).get("kind") == "DeclRefExpr"}
+        aliases = {}
+        for x in walk(prog.body(f)):
+            if x.get("kind") == "VarDecl" and kids(x) and x["name"] not in reassigned:
+                i0 = strip(kids(x)[-1], casts=True)
+                if i0.get("kind") == "MemberExpr" and i0.get("name") == FIELD:
+                    aliases[x["id"]] = i0
         for m, parents in walk_with_parents(prog.body(f)):
-            if m.get("kind") != "MemberExpr" or m.get("name") != FIELD:
+            is_alias_use = m.get("kind") == "DeclRefExpr" and (m.get("referencedDecl") or {}).get("id") in aliases
+            if not is_alias_use and (m.get("kind") != "MemberExpr" or m.get("name") != FIELD):
+                continue
+            if not is_alias_use and parents and any(pp.get("kind") == "VarDecl" and pp.get("id") in aliases for pp in parents[-3:]):
+                nreads += 1
+                chk.ok("READ", "READ/local-copy/%s" % fn, loc_str(m), "the options are copied whole into a local that is only read")
                 continue
             # classify by nearest interesting parent
             p = parents[-1] if parents else None
